@@ -213,7 +213,16 @@ func zzMapEqual(a, b *zzMap) bool {
 		}
 		return ok
 	}
+	var seen [][]byte
 	probe := func(k []byte) {
+		// the same key object (initial content, or a request key stored by
+		// both sides) needs one probe only
+		for _, p := range seen {
+			if len(p) == len(k) && (len(k) == 0 || &p[0] == &k[0]) {
+				return
+			}
+		}
+		seen = append(seen, k)
 		va, fa := a.getNB(k)
 		vb, fb := b.getNB(k)
 		ok = zzAnd(ok, fa == fb)
